@@ -91,6 +91,27 @@ pub fn exercise(s: &str, recs: &[Rec]) -> Result<Vec<(String, bool)>, Failure> {
     Ok(outs)
 }
 
+/// `differential`, taken again when a pattern with dates did not match: the reference renders every date of a
+/// pattern for ONE second, while an encode that runs across the turn of a second gives its dates different seconds.
+/// Such an encode is simply repeated (three mismatches in a row are not the clock).
+pub fn differential_settled(s: &str, recs: &[Rec], outs: &[(String, bool)], obs: &mut Obs) -> CaseResult {
+    let first = differential(s, recs, outs, obs);
+    let dated = s.contains("{d") || s.contains("{date");
+    match &first {
+        Err(f) if dated && (f.sig == "C11:wellformed-output-differs" || f.sig == "C11:false-error") => {
+            for _ in 0..2 {
+                let again = exercise(s, recs)?;
+                if differential(s, recs, &again, obs).is_ok() {
+                    obs.class("date-pattern-encoded-across-the-turn-of-a-second(repeated)");
+                    return Ok(());
+                }
+            }
+            first
+        }
+        _ => first,
+    }
+}
+
 // ---- part 1: exhaustive over the syntax alphabet ------------------------------------------------
 
 #[derive(Serialize, Deserialize, Debug, Clone)]
@@ -169,7 +190,7 @@ pub fn differential(s: &str, recs: &[Rec], outs: &[(String, bool)], obs: &mut Ob
 pub fn check_str(case: &Str, obs: &mut Obs) -> CaseResult {
     let recs = fixed_recs();
     let outs = exercise(&case.0, &recs)?;
-    differential(&case.0, &recs, &outs, obs)?;
+    differential_settled(&case.0, &recs, &outs, obs)?;
     let has_err = outs.iter().any(|(o, ok)| o.contains("{ERROR:") || !*ok);
     let has_other = outs.iter().any(|(o, _)| {
         let stripped = o.replace("{ERROR:", "");
@@ -328,7 +349,7 @@ pub fn soup_strategy() -> impl Strategy<Value = Soup> {
 
 pub fn check_soup(case: &Soup, obs: &mut Obs) -> CaseResult {
     let outs = exercise(&case.s, std::slice::from_ref(&case.rec))?;
-    differential(&case.s, std::slice::from_ref(&case.rec), &outs, obs)?;
+    differential_settled(&case.s, std::slice::from_ref(&case.rec), &outs, obs)?;
     let has_err = outs.iter().any(|(o, ok)| o.contains("{ERROR:") || !*ok);
     let has_other = outs.iter().any(|(o, _)| !o.replace("{ERROR:", "").is_empty());
     let big = case.s.split(|c: char| !c.is_ascii_digit()).any(|d| d.len() >= 10);
